@@ -104,6 +104,43 @@ def answers_info(C):
     return out
 
 
+def answers_on_arm(C, sel, tg):
+    """[(call, [response alternatives], expr)] for the answers reachable from the select arm entered at block tg.  A
+    response built in several arms and handed to one shared answer call after they join
+    (`let outcome = select! { .. => Fail(a), .. => Fail(b) }; if let Fail(r) = outcome { resolve(r) }`) is split by
+    where each alternative is built: the arm gets the alternatives built on blocks only it can reach."""
+    L = C.L
+    b = L.body
+    r = b.reach([tg])
+    others = [t for t in sel.arms.values() if t != tg]
+    other_reach = set()
+    for t in others:
+        other_reach |= b.reach([t])
+    own = r - other_reach
+    out = []
+    for c in L.answers:
+        if c.bb not in r:
+            continue
+        e = ml.response_arg(C.F, C.X, b, c)
+        if c.bb in own or not c.args:
+            out.append((c, mm.eval_response(C.F, C.X, e, C.enc_table), e))
+            continue
+        # shared answer: keep the alternatives made in this arm
+        alts_ = mm.def_alternatives(C.F, C.X, b, c.args[-1])
+        mine = [(x, wh) for x, _vf, _cf, wh in alts_ if wh and wh[0] == b.cdef and wh[1] in own]
+        foreign = [(x, wh) for x, _vf, _cf, wh in alts_ if wh and wh[0] == b.cdef and wh[1] in other_reach and wh[1] not in r]
+        if mine:
+            resp = []
+            for x, _wh in mine:
+                resp += mm.eval_response(C.F, C.X, x, C.enc_table)
+            out.append((c, resp, mine[0][0]))
+        elif alts_ and len(foreign) == len(alts_):
+            continue                       # nothing this arm hands to that call
+        else:
+            out.append((c, mm.eval_response(C.F, C.X, e, C.enc_table), e))
+    return out
+
+
 def blocks(calls):
     return {c.bb for c in calls}
 
@@ -472,7 +509,7 @@ def u4_fail_arm_forwards(C, rep, rid):
     bad = [c for c in L.pay + L.add_attempt + L.store_w if c.bb in r]
     rep.ob(rid, not bad, L.fn, "no pay/write from the fail arm", where=bad[0].loc if bad else sel.futures[i].loc, how="unreachable",
            detail="" if not bad else "%s is reachable from the fail-request arm" % bad[0].name)
-    infos = [(c, resp, e) for c, resp, e in answers_info(C) if c.bb in r]
+    infos = answers_on_arm(C, sel, tg)
     ok = len(infos) == 1
     rep.ob(rid, ok, L.fn, "one answer on the fail arm", where=infos[0][0].loc if infos else "", how="1 site", detail="" if ok else "%d answer sites on the fail arm" % len(infos))
     for c, resp, e in infos:
@@ -630,7 +667,7 @@ def t3_timeout_arm(C, rep, rid):
     bad = [c for c in L.pay + L.store_w + L.wait if c.bb in r]
     rep.ob(rid, not bad, L.fn, "no pay/write from the timer arm", where=bad[0].loc if bad else sel.futures[i].loc, how="unreachable",
            detail="" if not bad else "an incomplete set that timed out can reach %s at %s" % (bad[0].name, bad[0].loc))
-    infos = [(c, resp) for c, resp, e in answers_info(C) if c.bb in r]
+    infos = [(c, resp) for c, resp, e in answers_on_arm(C, sel, tg)]
     ok = len(infos) == 1
     rep.ob(rid, ok, L.fn, "one answer on the timer arm", where=infos[0][0].loc if infos else "", how="1", detail="" if ok else "%d answer sites on the timer arm" % len(infos))
     for c, resp in infos:
